@@ -13,6 +13,11 @@ ORD_NAMES = ["first", "second", "third", "forth", "fifth", "sixth", "seventh"]
 FIP = "cards::five::Five::find_in_products"
 
 
+def default_fip_contract(ex, st, args, info):
+    """Callers of the product search see it through its contract (established by rule S), not its loop."""
+    return mk_call("contract:find_in_products", args, "usize")
+
+
 class Summary:
     def __init__(self, ret, outs, obligations, ex, st):
         self.ret, self.outs, self.obligations, self.ex, self.st = ret, outs, obligations, ex, st
@@ -63,6 +68,8 @@ class Ctx:
     def summ(self, key, params, self_ty=None, contracts=None, opaque=None):
         """params: [('v', node) | ('r', node)].  ('r', x) passes a reference to a fresh cell holding x; the cell's
         final content is returned in .outs (None for by-value params)."""
+        if contracts is None:
+            contracts = {FIP: default_fip_contract}
         ex = Exec(self.pdb, contracts=contracts, opaque=opaque)
         st = State()
         args, refs = [], []
